@@ -101,7 +101,19 @@ def m_container_pred_on_payload(case: dict, xd: dict, what: str) -> bool:
     return True
 
 
+def m_float_nan_inf(case: dict, xd: Any, what: str) -> bool:
+    """D11: a float nan / inf parameter of Min / Max / EqualTo / Choices ends up in the schema"""
+    if "strict JSON" not in what and "valid Draft 2020-12 schema" not in what:
+        return False
+    for d in walk([case["v"], case.get("env", [])]):
+        if d.get("k") in ("Min", "Max", "EqualTo", "Choices", "equals"):
+            if any(x.get("t") == "float" and x.get("k") in ("nan", "inf") for x in walk(d)):
+                return True
+    return False
+
+
 MATCHERS: Dict[str, Callable[[dict, dict, str], bool]] = {
+    "float_nan_inf_in_schema": m_float_nan_inf,
     "container_pred_on_payload": m_container_pred_on_payload,
     "special_decimal": m_special_decimal,
     "naive_aware": m_naive_aware,
